@@ -51,3 +51,208 @@ def caller_arguments_untouched(ctx, rel, rule, allowed=None, min_functions=3):
                (f"the caller's argument `{first[0]}` is changed in place ({first[1][0][1]} at line {first[1][0][0]}): a second call with "
                 "the same object sees a different value" if first else ""), f.lineno)
     ctx.floor(f"{rule}:{rel}", n, min_functions)
+
+
+def _truth_tested_names(fn):
+    """names used as a truth value: `if x`, `while x`, `x and ..`, `not x`, `.. if x else ..`"""
+    out = {}
+
+    def mark(e):
+        if isinstance(e, ast.Name):
+            out.setdefault(e.id, e)
+        elif isinstance(e, ast.BoolOp):
+            for v in e.values:
+                mark(v)
+        elif isinstance(e, ast.UnaryOp) and isinstance(e.op, ast.Not):
+            mark(e.operand)
+    for n in ast.walk(fn):
+        if isinstance(n, (ast.If, ast.While, ast.IfExp, ast.Assert)):
+            mark(n.test)
+        elif isinstance(n, ast.comprehension):
+            for c in n.ifs:
+                mark(c)
+    return out
+
+
+def optional_numbers_tested_for_none(ctx, rel, rule, min_params=1, only=None):
+    """A parameter whose default is None and which the function uses as a number (ordered comparison / arithmetic) has two
+    different 'absent' candidates: None and 0.  The documented one is None; a truth test (`if timeout and ..`) treats the
+    legal value 0 as absent as well."""
+    s = ctx.src(rel)
+    n = 0
+    for qual, f in s.funcs.items():
+        if only is not None and qual not in only:
+            continue
+        a = f.args
+        pos = a.posonlyargs + a.args
+        defaults = dict(zip([x.arg for x in pos[len(pos) - len(a.defaults):]], a.defaults))
+        defaults.update({x.arg: d for x, d in zip(a.kwonlyargs, a.kw_defaults) if d is not None})
+        optional = {p for p, d in defaults.items() if isinstance(d, ast.Constant) and d.value is None}
+        if not optional:
+            continue
+        numeric = set()
+        for x in ast.walk(f):
+            if isinstance(x, ast.Compare) and any(isinstance(o, (ast.Lt, ast.LtE, ast.Gt, ast.GtE)) for o in x.ops):
+                numeric |= {y.id for y in [x.left] + x.comparators if isinstance(y, ast.Name)}
+            elif isinstance(x, ast.BinOp) and isinstance(x.op, (ast.Add, ast.Sub, ast.Mult, ast.Div, ast.FloorDiv, ast.Mod)):
+                numeric |= {y.id for y in (x.left, x.right) if isinstance(y, ast.Name)}
+        rebound = {t.id for x in ast.walk(f) if isinstance(x, ast.Assign) for t in x.targets if isinstance(t, ast.Name)}
+        truth = _truth_tested_names(f)
+        for p in sorted((optional & numeric) - rebound):
+            n += 1
+            ctx.ob(rule, rel, qual, f"optional number `{p}` (default None)", p not in truth,
+                   f"`{p}` is tested by its truth value: the legal value 0 is treated like None (absent)", getattr(truth.get(p), "lineno", f.lineno))
+    ctx.floor(f"{rule}:{rel}", n, min_params)
+    return n
+
+
+READ_ONLY_METHODS = {"as_array", "as_item", "serialize", "__eq__", "__len__", "__iter__", "__contains__", "keys", "values", "items",
+                     "__str__", "__repr__", "copy", "get_structure", "get_sequence"}
+
+
+def readers_leave_object(ctx, rel, rule, min_methods=2, names=READ_ONLY_METHODS):
+    """methods that hand out a view of an object's content (as_array, as_item, serialize, ==, ...) do not change the arrays and
+    containers the object holds: nothing is stored into, or changed in place through, `self.<attr>` or a local that may be
+    the same object (`a = self._data.array.astype(dtype, copy=False); a[mask] = v` writes into the column itself)"""
+    from .effects import param_mutations
+    s = ctx.src(rel)
+    muts = param_mutations(s.funcs)
+    n = 0
+    for q, f in s.funcs.items():
+        if "." not in q or q.split(".")[-1] not in names:
+            continue
+        ps = [a.arg for a in f.args.posonlyargs + f.args.args]
+        if not ps or ps[0] != "self":
+            continue
+        n += 1
+        w = muts.get(q, {}).get("self", [])
+        ctx.ob(rule, rel, q, "self is only read", not w,
+               (f"the object's own data are changed while they are read ({w[0][1]} at line {w[0][0]}): what is read or written next differs"
+                if w else ""), f.lineno)
+    ctx.floor(f"{rule}:{rel}", n, min_methods)
+
+
+def parameter_threaded(ctx, rel, rule, pname, min_calls=2):
+    """a setting that the public entry point accepts reaches every helper that has a parameter of the same name: every call
+    from a function with parameter `pname` to a function of the module with parameter `pname` passes the caller's value
+    (omitting it silently falls back to the callee's default)"""
+    s = ctx.src(rel)
+    sig = {}
+    for q, f in s.funcs.items():
+        ps = [a.arg for a in f.args.posonlyargs + f.args.args]
+        kws = [a.arg for a in f.args.kwonlyargs]
+        if pname in ps or pname in kws:
+            sig[q.split(".")[-1]] = (ps, kws)
+    n = 0
+    for q, f in s.funcs.items():
+        ps = [a.arg for a in f.args.posonlyargs + f.args.args + f.args.kwonlyargs]
+        if pname not in ps:
+            continue
+        for c in ast.walk(f):
+            if not isinstance(c, ast.Call):
+                continue
+            cn = (call_name(c) or "").split(".")[-1]
+            if cn not in sig:
+                continue
+            cps, ckws = sig[cn]
+            if cps and cps[0] in ("self", "cls") and isinstance(c.func, ast.Attribute):
+                cps = cps[1:]
+            arg = None
+            if pname in cps and cps.index(pname) < len(c.args):
+                arg = c.args[cps.index(pname)]
+            for k in c.keywords:
+                if k.arg == pname:
+                    arg = k.value
+            n += 1
+            ctx.ob(rule, rel, q, f"{cn}(.. {pname}={ast.unparse(arg) if arg is not None else '<default>'})",
+                   isinstance(arg, ast.Name) and arg.id == pname,
+                   f"`{pname}` given to {q.split('.')[-1]}() does not reach {cn}(): the callee works with " +
+                   ("its default" if arg is None else ast.unparse(arg)), c.lineno)
+    ctx.floor(f"{rule}:{rel}", n, min_calls)
+    return n
+
+
+def _names(e):
+    return {n.id for n in ast.walk(e) if isinstance(n, ast.Name)}
+
+
+def lost_loop_updates(func):
+    """stores that every iteration of a `for` loop makes into the SAME location without reading what the previous iteration
+    put there and without using it inside the iteration: only the last iteration has an effect.
+    Returns [(loop, assign)]"""
+    out = []
+    for lp in ast.walk(func):
+        if not isinstance(lp, ast.For) or lp.orelse:
+            continue
+        if any(isinstance(x, ast.Break) for x in ast.walk(lp)):
+            continue
+        tvars = _names(lp.target)
+        assigned = set(tvars)
+        for x in ast.walk(lp):
+            if isinstance(x, ast.Name) and isinstance(x.ctx, ast.Store):
+                assigned.add(x.id)
+        for st in lp.body:
+            if not (isinstance(st, ast.Assign) and len(st.targets) == 1 and isinstance(st.targets[0], (ast.Subscript, ast.Attribute))):
+                continue
+            tgt = st.targets[0]
+            if _names(tgt) & assigned:
+                continue                       # another location in every iteration
+            if not (_names(st.value) & tvars):
+                continue                       # loop-invariant value
+            load = ast.dump(ast.parse(ast.unparse(tgt), mode="eval").body)
+            reads = [x for b in lp.body for x in ast.walk(b) if isinstance(x, (ast.Subscript, ast.Attribute)) and isinstance(x.ctx, ast.Load)
+                     and ast.dump(x) == load]
+            if reads:
+                continue                       # accumulates, or is consumed inside the iteration
+            # an object that the iteration goes on to fill (x.attr = ..; x.other = ..) is not an overwritten result
+            base = tgt
+            while isinstance(base, (ast.Subscript, ast.Attribute)):
+                base = base.value
+            if isinstance(base, ast.Name) and any(isinstance(x, ast.Name) and x.id == base.id and isinstance(x.ctx, ast.Load) and x is not base
+                                                  for b in lp.body for x in ast.walk(b) if b is not st):
+                continue
+            out.append((lp, st))
+    return out
+
+
+def loop_updates_kept(ctx, rel, rule, min_loops=1):
+    """see lost_loop_updates: one obligation per function with for-loops"""
+    s = ctx.src(rel)
+    n = 0
+    for q, f in s.funcs.items():
+        if any(q.startswith(o + ".") for o in s.funcs if o != q and o.split(".")[-1] != o and False):
+            continue
+        loops = [lp for lp in ast.walk(f) if isinstance(lp, ast.For)]
+        if not loops:
+            continue
+        n += 1
+        bad = lost_loop_updates(f)
+        ctx.ob(rule, rel, q, f"{len(loops)} for-loop(s): every store into a fixed location reads or uses what is there", not bad,
+               (f"`{ast.unparse(bad[0][1])[:70]}` (line {bad[0][1].lineno}) is executed once per `{ast.unparse(bad[0][0].target)}` but always writes the same "
+                "location from values that do not include the previous result: only the last iteration has an effect" if bad else ""), f.lineno)
+    ctx.floor(f"{rule}:{rel}", n, min_loops)
+
+
+def integer_tests_accept_numpy(ctx, rel, rule, min_tests=1):
+    """`isinstance(x, int)` is False for NumPy integers - and positions / codes in this library usually are NumPy integers
+    (elements of a code array, results of np.where / argmax).  Integer tests use numbers.Integral (or name np.integer)."""
+    s = ctx.src(rel)
+    n = 0
+    for qual, f in s.funcs.items():
+        for c in ast.walk(f):
+            if not (isinstance(c, ast.Call) and isinstance(c.func, ast.Name) and c.func.id == "isinstance" and len(c.args) == 2):
+                continue
+            t = c.args[1]
+            members = list(t.elts) if isinstance(t, ast.Tuple) else [t]
+            txt = [ast.unparse(m) for m in members]
+            if not any(x in ("int", "numbers.Integral", "Integral", "np.integer", "numbers.Real", "Real") for x in txt):
+                continue
+            if any(c in ast.walk(g) for q2, g in s.funcs.items() if q2 != qual and q2.startswith(qual + ".")):
+                continue
+            n += 1
+            narrow = "int" in txt and not any(x in ("numbers.Integral", "Integral", "np.integer", "numbers.Real", "Real") for x in txt)
+            ctx.ob(rule, rel, qual, ast.unparse(c)[:70], not narrow,
+                   "a NumPy integer (np.int64 from np.where / argmax / an element of a code array) is not an instance of int: it takes the other branch",
+                   c.lineno)
+    ctx.floor(f"{rule}:{rel}", n, min_tests)
+    return n
